@@ -44,6 +44,9 @@ REQ = {
     "connect": b"CONNECT example.com:80 HTTP/1.1\r\nHost: example.com:80\r\nX-Conn: %s\r\n\r\n",
     "get_origin": b"GET /%s HTTP/1.1\r\nHost: example.com\r\n\r\n",
     "post_origin": b"POST /%s HTTP/1.1\r\nHost: example.com\r\nContent-Length: 7\r\n\r\nhello\r\n",
+    # opaque (non-HTTP, non-TLS) tunnel payload whose last bytes are CR LF; it does not start with CR/LF, so the
+    # "eat superfluous newlines after CONNECT" rule never applies to it
+    "raw": b"*1 %s ping\r\n+ok\r\n",
 }
 RESP = {
     "cl": b"HTTP/1.1 200 OK\r\nContent-Length: 4\r\nX-Id: %s\r\n\r\nbody",
@@ -82,6 +85,10 @@ BASES = [
     # sequential: a client must not send tunnel payload before it has received the 2xx to its CONNECT
     ("seq-tunnel-get", [("connect", None), ("get_origin", "cl")], None),
     ("seq-tunnel-post-get", [("connect", None), ("post_origin", "cl"), ("get_origin", "ch")], None),
+    # optimistic tunnel payload (same segment as the CONNECT head, or any later split): whatever the proxy does with
+    # early payload, it must do the same for every segmentation; the opaque payload must reach upstream byte-exact
+    ("pipe-tunnel-get", [("connect", None), ("get_origin", "cl")], None),
+    ("pipe-tunnel-raw", [("connect", None), ("raw", None)], None),
     ("seq2", [("get", "cl"), ("post_cl", "ch")], None),
     ("seq2-surplus", [("get", "surplus"), ("get", "cl")], None),
     ("seq3-surplus-junk", [("get", "cl"), ("get", "surplus-junk"), ("get", "cl")], None),
@@ -260,6 +267,8 @@ def outcome(w: World, methods):
     for e in w.servers:
         msgs, verdict = http1ref.parse_requests(e.w.data)
         up.append({"addr": e.address, "verdict": verdict, "msgs": [_msg(m) for m in msgs]})
+        if "raw" in methods:
+            up[-1]["bytes"] = bytes(e.w.data)  # opaque tunnel payload: compared byte for byte
     cm, cv = http1ref.parse_responses(w.client.w.data, _methods(methods), eof=w.client.w.closed)
     raw = sorted({n for n, _ in w.hooks if n.startswith(("tcp_", "udp_"))})
     return {"flows": flows, "upstream": up, "client": {"verdict": cv, "msgs": [_msg(m) for m in cm]}, "client_msgs": cm, "errors": [], "raw_hooks": raw}
@@ -324,7 +333,7 @@ def specs(tier):
     for base in BASES:
         cs, rs = build(base)
         n = len(cs)
-        m = max(len(r) for r in rs)
+        m = max([len(r) for r in rs] or [1])
         ccutsets = [()] + [(i,) for i in range(1, n)] + ["all"]
         scutsets = [()] + [(i,) for i in range(1, m)] + ["all"]
         if tier == "thorough":
